@@ -40,3 +40,16 @@ claim("C35", "property-based testing (proptest): round trip through ord's encode
 claim("C36", "property-based testing (proptest): differential against the documented precedence rule",
       "Generated subsets of sources per setting with pairwise different values; Settings::merge output compared per key with flag > env > file > default, OR for switches, union for hidden.",
       "Environment passed as the map that Settings::load builds (process environment not mutated).")
+
+claim("C01", "model-based property testing (proptest): generated valid chains indexed by the real Index vs a reference implementation of the BIP's assign_ordinals",
+      "Chains valid by construction (multi-output/under-paying coinbases, fee payers, same-block spends, zero-value and OP_RETURN outputs, duplicate coinbase txids) are indexed through the real updater over a mock node under random flags/commit intervals/update partitions; every unspent output's listed ranges and the lost-sats list must equal the reference model at every checkpoint.",
+      "RefSats (harness/src/model/sats.rs) implements bip.mediawiki; mockcore serves the blocks; coinbase maturity not enforced (as in the repository's tests). Known finding for duplicate-txid-respent excluded by signature.")
+claim("C02", "model-based property testing + table audit over generated chains",
+      "At every checkpoint of generated histories the H1 dump is audited for the sat partition (disjoint, complete, value-consistent) and Index::find / find_range / rare_sat_satpoints are compared with the model for boundary and random sats.",
+      "RefSats as oracle for locations; sats destroyed by duplicate txids are taken from the model.")
+claim("C12", "differential property testing: two generated schedules over the same generated chain",
+      "The same chain (sats, inscriptions, runes, addresses) is indexed twice with different commit intervals, update partitions and reopen points; full table dumps must be identical except timing/commit bookkeeping.",
+      "Dump hook H1 is read-only; masked keys are exactly Commits, InitialSyncTime, LastSavepointHeight, the write-transaction timestamp table and savepoint ids.")
+claim("C17", "model-based property testing: address multimap vs unspent outputs recomputed from the generated blocks",
+      "Generated chains with heavy script reuse indexed with --index-addresses; script->outpoint multimap, per-entry script/value and get_address_info compared with the set of unspent outputs derived directly from the blocks at every checkpoint.",
+      "OP_RETURN outputs count as unspent (nothing can spend them); pseudo-outputs listed under the empty script are excluded.")
